@@ -235,7 +235,7 @@ def harness_factory(lname, k, nargs, twins=False, form="lambda"):
                 (steps[0] == "children" and mut in ("assign_list", "del_children")) or (steps[0] == "mapping" and mut in ("map_assign", "del_mapping"))
             if first_link_changed and len(steps) == 1:
                 changed = new_first is not old_first
-                if changed and nargs != 0 and old_first is not None and new_first is not None:
+                if changed and old_first is not None and new_first is not None:
                     try:
                         if bool(old_first == new_first):
                             changed = False      # an EQUAL value is no change for a user handler under the default comparison mode
@@ -302,12 +302,13 @@ def obligations(tier, build):
                                       bounds={"extended name": lname, "observe expression": NAMES[lname][0], "history length": K,
                                               "objects": "pairwise equal (value-based __eq__), distinct", "list positions": "unbounded Int"},
                                       leverage="list indices; otherwise choice feasibility only", max_paths=100000, path_wall_s=60))
+    FK = 2          # (the forms multiply the histories by the declaration flags: length 2 in both tiers, all names in thorough)
     for form in ("methods", "decorated", "overridden"):
         for lname in NAMES:
             if tier == "quick" and lname in ("child.children.value",):
                 continue
-            obs.append(Obligation("forms/%s/%s/k=%d" % (form, lname, K), harness_factory(lname, K, 4, form=form), env=G.env, stubs=STUBS,
-                                  bounds={"extended name": lname, "observe expression": NAMES[lname][0], "history length": K,
+            obs.append(Obligation("forms/%s/%s/k=%d" % (form, lname, FK), harness_factory(lname, FK, 4, form=form), env=G.env, stubs=STUBS,
+                                  bounds={"extended name": lname, "observe expression": NAMES[lname][0], "history length": FK,
                                           "registration": {"methods": "bound methods of two listener objects that compare equal",
                                                            "decorated": "decorators on the class, post_init and constructor arguments symbolic",
                                                            "overridden": "decorated handlers re-declared by a subclass under the name with "
